@@ -189,7 +189,7 @@ theorem evaluateRoute_inv13 (e r) : Rel inv13Pre (evaluateRoute e r) := by
   inv13_walk []
 
 theorem stageNext_inv13 (k idx e o acc) : Rel inv13Pre (stageNext k idx e o acc) := by
-  unfold stageNext
+  unfold stageNext stageTarget
   inv13_walk [evaluateRoute_inv13 _ _]
 
 theorem fireTransition_inv13 (k idx ec acc e) : Rel inv13Pre (fireTransition E k idx ec acc e) := by
@@ -267,7 +267,7 @@ theorem addTaskState_inv13 (k a b) : Rel inv13Pre (addTaskState E k a b) := by
       exact newRecord_retryOk E c0 k a b)
 
 theorem ensureRecord_inv13 (k s r ev) : Rel inv13Pre (ensureRecord E k s r ev) := by
-  unfold ensureRecord
+  unfold ensureRecord firstRecord recordFromStaged
   inv13_walk [addTaskState_inv13 E _ _ _]
 
 theorem requestTaskRerun_inv13 (k r) : Rel inv13Pre (requestTaskRerun E k r) := by
